@@ -4,7 +4,7 @@ registered check of its property (plus the related ones listed below), record wh
 and seeded/RESULTS.md, and undo the change (git -C /repo checkout -- .).  /repo must be clean; nothing is committed there."""
 import json, os, subprocess, sys, re
 ROOT = "/verif"
-RELATED = {"C02": ["C09"], "C03": ["C04"], "C04": ["C03"], "C08": ["C09"], "C09": ["C08", "C02"], "C13": ["C07"], "C20": ["C05"], "C10": ["C17"], "C17": ["C10"]}
+RELATED = {"C01": ["C09"], "C05": ["C15"], "C13": ["C09"], "C02": ["C09"], "C03": ["C04"], "C04": ["C03"], "C08": ["C09"], "C09": ["C08", "C02"],  "C20": ["C05"], "C10": ["C17"], "C17": ["C10"]}
 tier = "quick"
 args = sys.argv[1:]
 if args[:1] == ["--tier"]:
